@@ -67,12 +67,17 @@ INIT = False  # publish_value's initial value: falsy on purpose, distinct from N
 
 # --------------------------------------------------------------------------- configurations
 
-def timelines(tier, vals):
+def timelines(tier, vals, src="hot"):
+    """Offsets relative to the subscription (cold) / to the base instant (hot).  Offset None (cold only) =
+    delivered synchronously inside subscribe, i.e. inside connect()."""
     a, b, c = vals
     tls = {
         "abC": [(10, "N", a), (20, "N", b), (30, "C", None)],
         "aE": [(10, "N", a), (20, "E", "E")],
     }
+    if src == "cold":
+        tls["sa,bC"] = [(None, "N", a), (10, "N", b), (20, "C", None)]
+        tls["saC"] = [(None, "N", a), (None, "C", None)]
     if tier == "thorough":
         tls["abc-"] = [(10, "N", a), (20, "N", b), (30, "N", c)]
         tls["C"] = [(10, "C", None)]
@@ -122,11 +127,18 @@ def values(seed):
     return (1 + 10 * (seed % 3), None, 0)
 
 
+# quick tier: kinds whose code path is shared with another kind of the list get one timeline per source type
+QUICK_SECONDARY = {"multicast", "replay(2,True)", "ref_count(publish)", "auto_connect(0)", "mapper(multicast,id)",
+                   "mapper(publish,zip2)", "mapper(replay,id)", "mapper(publish_value,id)"}
+
+
 def all_configs(tier, seed):
     b = bounds(tier)
     for kind in kinds(tier):
         for st in ("cold", "hot"):
-            for tname in timelines(tier, values(seed)):
+            for tname in timelines(tier, values(seed), st):
+                if tier == "quick" and kind_id(kind) in QUICK_SECONDARY and tname != ("sa,bC" if st == "cold" else "abC"):
+                    continue
                 yield {"kind": kind, "src": st, "tl": tname, "depth": b["depth"], "nslots": b["nslots"], "maxticks": b["maxticks"]}
 
 
@@ -160,7 +172,10 @@ class Pipe:
         m.intervals.append([m.now, None, False])
         self.interval = len(m.intervals) - 1
         if m.src_type == "cold":
-            self.pending = [(m.now + t, k, v) for (t, k, v) in m.tl]
+            self.pending = [(m.now + t, k, v) for (t, k, v) in m.tl if t is not None]
+            for (t, k, v) in m.tl:
+                if t is None and self.attached:  # delivered inside subscribe
+                    m._emit(self, k, v)
 
     def detach(self):
         if self.attached:
@@ -227,7 +242,7 @@ class Model:
         self.mode = {"share": "refcount", "ref_count": "refcount", "auto_connect": "auto", "mapper": "mapper"}.get(kind[0], "manual")
         self.auto_n = kind[1] if self.mode == "auto" else None
         self.src_type = cfg["src"]
-        self.tl = timelines("thorough", vals)[cfg["tl"]]
+        self.tl = timelines("thorough", vals, "cold")[cfg["tl"]]
         self.hot = [(base + t, k, v) for (t, k, v) in self.tl] if self.src_type == "hot" else []
         self.hot_i = 0
         self.hot_done = False
@@ -317,9 +332,9 @@ class Model:
             p = Pipe(self, self.skind, None, self._xf)
             self.pipes.append(p)
             p.subject_subscribe(rid)
-            p.attach()
             self.slots[slot] = rid
             self.rid_pipe[rid] = p
+            p.attach()
             return rid
         before = self.count()
         act = self.pipe.subject_subscribe(rid)
@@ -442,8 +457,13 @@ class World:
 
     # -- events
     def apply(self, ev):
+        """Perform the event on the real objects (exceptions raised to the caller are observations), then on
+        the model (an exception there is a harness error and propagates)."""
         m, sched = self.model, self.sched
+        if ev[0] not in ("sub", "unsub", "connect", "disconnect", "tick", "adv"):
+            raise ValueError(ev)
         self.trace.append(ev)
+        opened = False
         try:
             if ev[0] == "sub":
                 i = ev[1]
@@ -451,39 +471,46 @@ class World:
                 rec = self.env.recorder(f"r{m.next_rid}")
                 self.slot_rec[i] = rec
                 self.recs[m.next_rid] = rec
-                rec.subscription = self.subscribable.subscribe(rec, scheduler=sched)
-                settle(sched)
-                m.sub(i, len(self.src.subs) > n0)
-                m.settle()
+                try:
+                    rec.subscription = self.subscribable.subscribe(rec, scheduler=sched)
+                    settle(sched)
+                finally:
+                    opened = len(self.src.subs) > n0
             elif ev[0] == "unsub":
                 self.slot_rec[ev[1]].dispose()
                 settle(sched)
-                m.unsub(ev[1])
-                m.settle()
             elif ev[0] == "connect":
                 self.handle = self.conn.connect(sched)
                 settle(sched)
-                m.connect()
-                m.settle()
             elif ev[0] == "disconnect":
                 self.handle.dispose()
                 settle(sched)
-                m.disconnect()
-                m.settle()
             elif ev[0] == "tick":
                 settle(sched)
                 sched.advance_by(10)
-                m.tick()
             elif ev[0] == "adv":
                 settle(sched)
                 sched.sleep(10)
-                m.adv()
-            else:
-                raise ValueError(ev)
         except vt.BudgetExceeded:
             self.budget_hit = True
-        except Exception as e:  # raised to the caller of subscribe/dispose/connect
+        except Exception as e:  # raised to the caller of subscribe/dispose/connect/advance
             self.raised.append((tuple(ev), e))
+        if ev[0] == "sub":
+            m.sub(ev[1], opened)
+            m.settle()
+        elif ev[0] == "unsub":
+            m.unsub(ev[1])
+            m.settle()
+        elif ev[0] == "connect":
+            m.connect()
+            m.settle()
+        elif ev[0] == "disconnect":
+            m.disconnect()
+            m.settle()
+        elif ev[0] == "tick":
+            m.tick()
+        elif ev[0] == "adv":
+            m.adv()
 
     # -- observation
     def obs_intervals(self):
@@ -675,11 +702,20 @@ def shard(part: core.Part, shard_i, nshards, tier, seed, deadline):
         explore(part, cfg, seed, deadline)
 
 
+def _weight(cfg):
+    k = cfg["kind"]
+    w = {"replay": 6, "publish_value": 4, "publish": 3, "multicast": 3, "ref_count": 2, "mapper": 2, "share": 1, "auto_connect": 1}[k[0]]
+    if k[0] == "replay" and not k[2]:
+        w += 4
+    return w * (2 if cfg["src"] == "hot" else 1) * (2 if cfg["tl"] in ("abC", "abc-", "sa,bC") else 1)
+
+
 def order_configs(tier, seed):
+    """One job per configuration; the heaviest state spaces are started first (visiting order only)."""
     cfgs = list(all_configs(tier, seed))
-    # the seed only rotates the visiting order
     r = seed % max(1, len(cfgs))
-    return cfgs[r:] + cfgs[:r]
+    cfgs = cfgs[r:] + cfgs[:r]
+    return sorted(cfgs, key=lambda c: -_weight(c))
 
 
 def run(ctx: core.Ctx):
@@ -688,11 +724,12 @@ def run(ctx: core.Ctx):
     ctx.bounds = {
         "depth": b["depth"], "subscriber_slots": b["nslots"], "max_time_steps": b["maxticks"],
         "kinds": [kind_id(k) for k in kinds(ctx.tier)], "sources": ["cold", "hot"],
-        "timelines": list(timelines(ctx.tier, values(ctx.seed))), "configurations": len(cfgs),
+        "timelines": {"cold": list(timelines(ctx.tier, values(ctx.seed), "cold")), "hot": list(timelines(ctx.tier, values(ctx.seed), "hot"))},
+        "configurations": len(cfgs),
     }
     ctx.assumptions = [
         "VirtualTimeScheduler queue discipline (checked separately by C28/C29)",
-        "harness LoggedCold/LoggedHot sources are conforming and asynchronous (first notification 10 ticks after subscription)",
+        "harness LoggedCold/LoggedHot sources are conforming",
         "a fresh operator object per world (operator re-use is C44)",
         "auto_connect(n): 'the n-th subscriber arrived' is accepted both as n concurrent and as n cumulative arrivals where they differ",
     ]
